@@ -19,4 +19,48 @@ def finish {σ : Type} : Py.Ctl σ Unit → Except Py.Abort σ
   | .ret _ s => .ok s
   | .abort a _ => .error a
 
+/-! ### the container as the constructors of VALSET / VALGET-poll build it (`tools/pysrc2lean_valset.py`) -/
+
+/-- what a container holds: item objects of `types.py`, key/value items of `cfgkeys.py` -/
+inductive Field
+  | item (o : Py.ItemObj)
+  | cfg (c : CfgItem)
+
+/-- `Fields`: the names `add` has seen and the fields, both in the order added -/
+structure Container where
+  names : List Py.FName := []
+  fields : List Field := []
+
+/-- `Fields.add(field)` -/
+def Container.add (c : Container) (n : Py.FName) (f : Field) : Except Exc Container :=
+  if c.names.contains n then .error .keyError else .ok { names := c.names ++ [n], fields := c.fields ++ [f] }
+
+def Field.setValue (f : Field) (v : Int) : Field :=
+  match f with
+  | .item o => .item { o with value := .int v }
+  | .cfg c => .cfg { c with value := v }
+
+def assignAt : List Py.FName → List Field → Py.FName → Int → List Field
+  | n' :: ns, f :: fs, n, v => if n' == n then f.setValue v :: fs else f :: assignAt ns fs n v
+  | _, fs, _, _ => fs
+
+/-- `self.f.<name> = v` (`Fields.__setattr__`): the value of the field of that name, if there is one (otherwise an ordinary attribute
+    of the container is set, which no field sees) -/
+def Container.assign (c : Container) (n : Py.FName) (v : Int) : Container :=
+  { c with fields := assignAt c.names c.fields n v }
+
+/-- `for v in <the fields in their order>` with an accumulator; the fields may change -/
+def forFields {σ : Type} : List Field → σ → (Field → σ → Except Exc (σ × Field)) → Except Exc (σ × List Field)
+  | [], acc, _ => .ok (acc, [])
+  | v :: rest, acc, body =>
+    body v acc >>= fun (acc', v') =>
+      forFields rest acc' body >>= fun (acc'', rest') => .ok (acc'', v' :: rest')
+
+def forEnumFrom {α σ : Type} (body : Nat → α → σ → Except Exc σ) : Nat → List α → σ → Except Exc σ
+  | _, [], st => .ok st
+  | i, x :: xs, st => body i x st >>= fun st' => forEnumFrom body (i + 1) xs st'
+
+/-- `for i, x in enumerate(xs): body` -/
+def forEnum {α σ : Type} (xs : List α) (st : σ) (body : Nat → α → σ → Except Exc σ) : Except Exc σ := forEnumFrom body 0 xs st
+
 end Py.Valget
